@@ -2,6 +2,7 @@ package node
 
 import (
 	"bytes"
+	"net/url"
 	"strings"
 
 	"github.com/freeconf/yang/meta"
@@ -55,7 +56,8 @@ func (seg *Path) toBuffer(b *bytes.Buffer) {
 				b.WriteRune(',')
 			}
 			if k != nil {
-				b.WriteString(k.String())
+				// escaped the way parseUrlPath unescapes it
+				b.WriteString(url.QueryEscape(k.String()))
 			} else {
 				b.WriteString("<nil>")
 			}
